@@ -364,7 +364,7 @@ func (p *Parser) ParseSnippetVCL() ([]ast.Statement, error) {
 				stmt, err = p.ParseGotoDestination()
 			}
 		default:
-			err = UnexpectedToken(p.peekToken)
+			err = UnexpectedToken(p.curToken)
 		}
 
 		if err != nil {
